@@ -61,6 +61,16 @@ thread_local! {
 /// taken out while in use, so a panic unwinding through here drops it and the next call
 /// starts with a fresh one.
 pub fn block_on<F: std::future::Future>(f: F) -> F::Output {
+    let workers = WORKERS.with(|w| w.get());
+    if workers > 0 {
+        // multi-thread flavour, fresh per call
+        let rt = tokio::runtime::Builder::new_multi_thread()
+            .worker_threads(workers)
+            .enable_all()
+            .build()
+            .expect("runtime");
+        return rt.block_on(f);
+    }
     let rt = RT.with(|r| r.borrow_mut().take()).unwrap_or_else(|| {
         tokio::runtime::Builder::new_current_thread()
             .enable_all()
@@ -70,6 +80,19 @@ pub fn block_on<F: std::future::Future>(f: F) -> F::Output {
     let out = rt.block_on(f);
     RT.with(|r| *r.borrow_mut() = Some(rt));
     out
+}
+
+thread_local! {
+    static WORKERS: std::cell::Cell<usize> = const { std::cell::Cell::new(0) };
+}
+
+/// Run `f` with conserve calls on this thread using a multi-thread runtime with `workers`
+/// worker threads (0 = the default current-thread runtime).
+pub fn with_workers<T>(workers: usize, f: impl FnOnce() -> T) -> T {
+    let old = WORKERS.with(|w| w.replace(workers));
+    let r = f();
+    WORKERS.with(|w| w.set(old));
+    r
 }
 
 pub fn local(path: &Path) -> Transport {
